@@ -492,15 +492,15 @@ func c08GenMod(t *rapid.T, n, roomUp, roomDown int) c08Mod {
 }
 
 func c08GenSegs(t *rapid.T) (L int, segs [][2]int) {
-	k := rapid.IntRange(1, 5).Draw(t, "nseg")
+	k := drawCount(t, 1, 5, 16, "nseg")
 	// lay out k disjoint segments with gaps, then shuffle their order
-	pos := rapid.IntRange(0, 6).Draw(t, "margin0")
+	pos := drawCount(t, 0, 6, 300, "margin0")
 	for i := 0; i < k; i++ {
-		n := rapid.IntRange(1, 4).Draw(t, "seglen")
+		n := drawCount(t, 1, 4, 120, "seglen")
 		segs = append(segs, [2]int{pos, pos + n})
-		pos += n + rapid.IntRange(0, 3).Draw(t, "gap")
+		pos += n + drawCount(t, 0, 3, 90, "gap")
 	}
-	L = pos + rapid.IntRange(0, 6).Draw(t, "margin1")
+	L = pos + drawCount(t, 0, 6, 300, "margin1")
 	if rapid.IntRange(0, 2).Draw(t, "shuffle") == 0 {
 		segs = rapid.Permutation(segs).Draw(t, "order")
 	}
@@ -601,6 +601,10 @@ func TestC08(t *testing.T) {
 	st := newStats("C08")
 	defer st.flush()
 	rapidPart(t, c08Prop, st, "rapid", pick(30000, 250000), c08Gen)
+	if t.Failed() {
+		return
+	}
+	rapidLargePart(t, c08Prop, st, pick(1500, 20000), c08Gen)
 	if t.Failed() {
 		return
 	}
